@@ -242,10 +242,10 @@ def trigH : Handler := fun args => do
   .ok (strBytes (Verif.Model.JsHoist.knownTrigger prog))
 
 /-- `model.c01d.facts` → the side conditions read from the source (`Gen/JsHoistFacts.lean`) as `0`/`1` characters:
-    mergeChecksOwnFunction, isShadowedKnowsWhile, catchKeepsAssignedByVar -/
+    mergeChecksOwnFunction, isShadowedKnowsWhile, catchKeepsAssignedByVar, endsInIfOptimizesLoops -/
 def factsH : Handler := fun _ =>
   .ok (boolBytes Verif.Gen.JsHoistFacts.mergeChecksOwnFunction ++ boolBytes Verif.Gen.JsHoistFacts.isShadowedKnowsWhile
-    ++ boolBytes Verif.Gen.JsHoistFacts.catchKeepsAssignedByVar)
+    ++ boolBytes Verif.Gen.JsHoistFacts.catchKeepsAssignedByVar ++ boolBytes Verif.Gen.JsHoistFacts.endsInIfOptimizesLoops)
 
 def handlers : List (String × Handler) :=
   [("model.c01d.min", minH), ("spec.c01d.run", runH), ("trig.c01d.known", trigH), ("model.c01d.facts", factsH)]
